@@ -518,7 +518,7 @@ def c19(ctx):
             toml.append('serde = { version = "1", default-features = false }')
         toml += ['', '[workspace]', '', '[profile.dev]', 'debug = false', 'incremental = false']
         open(os.path.join(d, 'Cargo.toml'), 'w').write('\n'.join(toml) + '\n')
-        shutil.copy(os.path.join(repo, 'Cargo.lock'), os.path.join(d, 'Cargo.lock'))
+        shutil.copy(cp.lockfile(repo), os.path.join(d, 'Cargo.lock'))
         open(os.path.join(d, 'src', 'lib.rs'), 'w').write(probe_src(fs, be, std, serde))
 
     choices = [[f] for f in FEATS] + [list(FEATS), []]
@@ -564,7 +564,7 @@ def c19(ctx):
                     'quantities = { path = "%s", default-features = false, features = [%s] }' % (repo, ', '.join('"%s"' % f for f in fl)),
                     '', '[workspace]', '', '[profile.dev]', 'debug = false', 'incremental = false']
             open(os.path.join(d, 'Cargo.toml'), 'w').write('\n'.join(toml) + '\n')
-            shutil.copy(os.path.join(repo, 'Cargo.lock'), os.path.join(d, 'Cargo.lock'))
+            shutil.copy(cp.lockfile(repo), os.path.join(d, 'Cargo.lock'))
             shutil.copy(os.path.join(ctx['root'], 'tools', 'corpus_main.rs'), os.path.join(d, 'src', 'main.rs'))
             env = dict(os.environ)
             env.update({'CARGO_NET_OFFLINE': 'true', 'CARGO_TARGET_DIR': tdir_base + '_corpus'})
